@@ -50,11 +50,12 @@ const (
 	faultHoleShortRead // hole source ReadAt returns fewer bytes without an error
 	faultHoleSeek      // hole source GetNextRegionOffset fails
 	faultBaseTruncate  // the file of the base pool fails Truncate (no effect)
+	faultHoleClose     // hole source Close fails (the hole source is closed nevertheless)
 	faultKinds
 )
 
 func (k faultKind) String() string {
-	return [...]string{"none", "devRead", "devWrite", "holeRead", "holeTruncate", "baseNewFile", "devShortRead", "holeShortRead", "holeSeek", "baseTruncate", "?"}[k]
+	return [...]string{"none", "devRead", "devWrite", "holeRead", "holeTruncate", "baseNewFile", "devShortRead", "holeShortRead", "holeSeek", "baseTruncate", "holeClose", "?"}[k]
 }
 
 // faultPlan arms at most one fault for the duration of one harness-level
@@ -272,6 +273,11 @@ type memDevice struct {
 	eofAtEnd bool
 
 	reads, writes atomic.Int64
+
+	// Concurrent mode: every concFaultEvery-th write fails (0 = never),
+	// alternately after storing nothing and after storing half of it.
+	concFaultEvery atomic.Int64
+	concFaults     atomic.Int64
 }
 
 func newMemDevice(ss, capacity int, rep reporter) *memDevice {
@@ -338,9 +344,18 @@ func (d *memDevice) ReadAt(p []byte, off int64) (int, error) {
 }
 
 func (d *memDevice) WriteAt(p []byte, off int64) (int, error) {
-	d.writes.Add(1)
+	seq := d.writes.Add(1)
 	if !d.checkRange("write", len(p), off) {
 		return 0, status.Error(codes.Internal, "verif: invalid device access")
+	}
+	if every := d.concFaultEvery.Load(); every > 0 && seq%every == 0 {
+		d.concFaults.Add(1)
+		if (seq/every)%2 == 0 && len(p) > 1 {
+			k := len(p) / 2
+			copy(d.data[off:], p[:k])
+			return k, errInjected
+		}
+		return 0, errInjected
 	}
 	if d.plan.hit(faultDevWrite) {
 		d.plan.firedAfterOpAl = d.mon.opAllocCalls > 0
@@ -411,6 +426,9 @@ func (h *monHoleSource) checkOpen(op string) {
 func (h *monHoleSource) Close() error {
 	if h.closed.Add(1) != 1 {
 		h.rep.violate("hole-source-closed-twice", "HoleSource.Close called more than once")
+	}
+	if h.plan.hit(faultHoleClose) {
+		return errInjected
 	}
 	if h.pattern.zero {
 		return pool.ZeroHoleSource.Close()
